@@ -189,8 +189,19 @@ func (c *connection) RouteReply(msg Message) bool {
 		// we surface whatever reason the peer actually sent, including reserved codes (5..255) that
 		// GetRejectReasonCode would reject — faithful reporting beats validation on this inbound path.
 		header := msg.HeaderBytes()
-		return e.replies.route(msg.SystemBytes(), replyResult{err: &RejectError{Reason: header[3]}})
+		// A Reject.req can reject a data message or a control message: it matches a waiter of either kind.
+		return e.replies.route(msg.SystemBytes(), replyResult{err: &RejectError{Reason: header[3]}}, replyAny)
 	}
 
-	return e.replies.route(msg.SystemBytes(), replyResult{msg: msg})
+	// A reply completes only a transaction of its own kind. A control response whose System Bytes collide with
+	// an open DATA transaction is a miss (an orphan control response, which the caller answers with
+	// Reject(TransactionNotOpen)) rather than being handed to the data sender — SendDataMessage would turn the
+	// routed *ControlMessage into (nil, nil). Symmetrically a data secondary never completes a control
+	// transaction (Select / Linktest), it is delivered as an unsolicited secondary.
+	kind := replyControl
+	if msg.Type() == DataMsgType {
+		kind = replyData
+	}
+
+	return e.replies.route(msg.SystemBytes(), replyResult{msg: msg}, kind)
 }
